@@ -2,3 +2,7 @@ import Lm.Generated.Mem
 import Lm.Mem
 import Lm.Inv.Mem
 import Lm.Props.C10
+import Lm.Struct.Chain
+import Lm.Struct.Queue
+import Lm.Struct.Stack
+import Lm.Struct.ListM
